@@ -138,19 +138,17 @@ func (su *suite) buildForkFamily(dir string, thorough bool) (*forkFamily, error)
 		{"B4", pUnder, dagx.Chain, 2*ps + 6 + j()}, // alone decodable on pages 0-1, together with A4's branch not
 		{"A5", pOver, dagx.Chain, max(uint32(pOver)+170, ps+10) + j()},
 		{"B5", pOver, dagx.Chain, 2*ps + 6 + j()},    // alone just more than one IBLT decodes on pages 0-1
-		{"B6", 260, dagx.Diamond, 2*ps + 70 + j()}, // wide, page 2
+		{"B6", 330, dagx.Diamond, 2*ps + 8 + j()}, // wide, page 2
 	}
+	// quick: the cheaper pairings (a case costs about one State.Add per transaction a node lacks)
 	cases := []forkCase{
-		{[]string{"A1", "B1"}, "pair", "quiet"},
-		{[]string{"B1", "A1"}, "pair", "lossy"},
-		{[]string{"A3", "B3"}, "pair", "quiet"},
-		{[]string{"A2", "B3"}, "pair", "chaotic"},
-		{[]string{"A4", "B4"}, "pair", "quiet"},
-		{[]string{"B5", "A5"}, "pair", "quiet"},
-		{[]string{"A1", "B6"}, "pair", "lossy"},
-		{[]string{"B6", "B1"}, "pair", "chaotic"},
-		{[]string{"A1", "B1", "root"}, "line", "quiet"},
-		{[]string{"A2", "B3", "B6"}, "triangle", ""},
+		{[]string{"A1", "B1"}, "pair", "quiet"},   // behind on page 1, peer on page 3
+		{[]string{"B3", "A3"}, "pair", "lossy"},   // first clock of page 2 against first clock of page 1, node 0 ahead
+		{[]string{"A2", "B3"}, "pair", "chaotic"}, // only the root in common, wide branch behind
+		{[]string{"A4", "B4"}, "pair", "quiet"},   // peer's part alone decodable, the symmetric difference not
+		{[]string{"B5", "A5"}, "pair", "quiet"},   // peer's part alone just beyond the capacity, node 0 ahead
+		{[]string{"A1", "B6"}, "pair", "lossy"},   // wide branch ahead
+		{[]string{"A5", "B5", "root"}, "line", "quiet"},
 	}
 	if thorough {
 		specs = append(specs,
@@ -159,10 +157,13 @@ func (su *suite) buildForkFamily(dir string, thorough bool) (*forkFamily, error)
 			sideSpec{"C3", 180, dagx.Chain, 3 * ps},   // first clock of page 3
 			sideSpec{"C4", 40, dagx.Chain, ps - 1},    // last clock of page 0: undecodable there is answered by the range query at once
 			sideSpec{"C5", 300, dagx.Random, ps + 90 + j()},
-			sideSpec{"C6", 20, dagx.Diamond, 3*ps + 20 + j()},
+			sideSpec{"C6", 20, dagx.Chain, 3*ps + 20 + j()},
 			sideSpec{"C7", 444, dagx.Chain, 2*ps + 300 + j()},
 		)
 		cases = append(cases,
+			forkCase{[]string{"B1", "A1"}, "pair", "lossy"}, forkCase{[]string{"B6", "B1"}, "pair", "chaotic"},
+			forkCase{[]string{"A1", "B1", "root"}, "line", "quiet"}, forkCase{[]string{"A2", "B3", "B6"}, "triangle", ""},
+			forkCase{[]string{"A3", "B3", "A5"}, "triangle", "quiet"},
 			forkCase{[]string{"C1", "B3"}, "pair", "quiet"}, forkCase{[]string{"B3", "C1"}, "pair", ""},
 			forkCase{[]string{"C2", "C3"}, "pair", "quiet"}, forkCase{[]string{"C4", "B3"}, "pair", "quiet"},
 			forkCase{[]string{"C4", "B1"}, "pair", ""}, forkCase{[]string{"C5", "C6"}, "pair", "quiet"},
